@@ -132,6 +132,9 @@ def instantiate(struct, rng, runlen=None, lower=0.0):
     characters outside the modelled pattern language are skipped"""
     out = []
     i = 0
+    # look-around assertions consume nothing: their content is no part of a member of the language
+    import re as _re
+    struct = _re.sub(r"\(\?(?:<[!=]|[!=])[^()]*\)", "", struct)
     while i < len(struct):
         c = struct[i]
         if c.upper() not in IUPAC:
